@@ -119,12 +119,47 @@ def _read_back(path, d_hint=None):
             return {'ok': True, 'natoms': int(g.natoms), 'recs': recs, 'box': box,
                     'title': chars(g.comment), 'fmt': [int(w), int(d)], 'grid_exact': bool(exact)}
         except Exception as exc:
+            # the file was opened without error and reading it failed later.  If the opened file hands out even one
+            # atom record it has "returned atoms": that is an accepted file (with whatever records it gives), not a
+            # rejected one.  (On the shipped implementation every rejection happens at open.)
+            got = _records_before_failure(path)
+            if got:
+                zero = {'neg': False, 'ip': 0, 'fr': 0}
+                return {'ok': True, 'natoms': -1, 'recs': got, 'box': [zero] * 9, 'title': [], 'fmt': [0, 0],
+                        'grid_exact': False, 'partial': type(exc).__name__}
             return {'ok': False, 'exc': type(exc).__name__}
     finally:
         try:
             g._file.close()
         except Exception:
             pass
+
+
+def _records_before_failure(path):
+    """records a reader gets from an opened file by asking for them one at a time, until the first error"""
+    from gaddlemaps.parsers import GroFile
+    out = []
+    try:
+        g = GroFile(path)
+    except Exception:
+        return out
+    try:
+        w, d = g.position_format
+        while len(out) < 200000:
+            ln = g.readline()
+            if not ln:
+                break
+            out.append({'resid': int(ln[0]), 'resname': chars(ln[1]), 'name': chars(ln[2]), 'nr': int(ln[3]),
+                        'pos': [float_to_fixed_obs(x, d)[0] for x in ln[4:7]],
+                        'vel': [float_to_fixed_obs(x, d + 1)[0] for x in ln[7:10]]})
+    except Exception:
+        pass
+    finally:
+        try:
+            g._file.close()
+        except Exception:
+            pass
+    return out
 
 
 def _flushed(g, path):
@@ -469,6 +504,20 @@ def random_file_trace(seed, tid, workdir, max_recs, trunc=True):
 
 
 # --------------------------------------------------------------------------- worker plumbing
+def write_big_file(path, n, vel):
+    """a complete coordinate file of n atoms in the fixed-column layout, written by the harness itself"""
+    with open(path, 'w') as fh:
+        fh.write('big generated system\n%d\n' % n)
+        for i in range(n):
+            x, y, z = (i % 97) * 0.125, (i % 89) * 0.25, (i % 83) * 0.5
+            line = '%5d%-5s%5s%5d%8.3f%8.3f%8.3f' % ((i // 3 + 1) % 100000, 'SOL', ('OW', 'HW1', 'HW2')[i % 3],
+                                                     (i + 1) % 100000, x, y, z)
+            if vel:
+                line += '%8.4f%8.4f%8.4f' % (0.125, -0.25, 0.5)
+            fh.write(line + '\n')
+        fh.write('  12.00000  22.00000  42.00000\n')
+
+
 def shipped_trace(tid, path, workdir, dense):
     """byte-level truncation of a shipped .gro file: every proper prefix if dense, else every 61st byte plus the
     200 bytes around the start of the box line and the last 300 bytes"""
@@ -478,7 +527,13 @@ def shipped_trace(tid, path, workdir, dense):
     lines = data.split(b'\n')
     body = data[:-1] if data.endswith(b'\n') else data
     box_start = body.rfind(b'\n') + 1
-    ks = range(len(data)) if dense else sorted(set(list(range(0, len(data), 61)) + list(range(max(0, box_start - 200), min(len(data), box_start + 100)))
+    if dense == 'sparse':
+        # a big generated file: 40 cuts spread over the records, every cut of the 120 bytes before the box line,
+        # the first bytes of the box line and the last bytes of the file
+        ks = sorted(set(list(range(0, len(data), max(1, len(data) // 40))) + list(range(max(0, box_start - 120), box_start + 3))
+                        + list(range(len(data) - 3, len(data)))))
+    else:
+      ks = range(len(data)) if dense else sorted(set(list(range(0, len(data), 61)) + list(range(max(0, box_start - 200), min(len(data), box_start + 100)))
                                                    + list(range(max(0, len(data) - 300), len(data)))))
     p = os.path.join(workdir, 'ship.gro')
     min_acc, exact = -1, True
@@ -650,11 +705,22 @@ def check(run, props):
         trunc = 'C14' in props and key not in seen_layout
         seen_layout.add(key)
         items.append((i + 1, h, trunc))
+    # the same histories with a declared count at and beyond the size where the atom numbers wrap
+    base = [h for h in hists if any(op['op'] == 'natoms' for op in h) and sum(op['op'] == 'write' for op in h) >= 1]
+    rng.shuffle(base)
+    bigdecl = []
+    for j, h in enumerate(base[:24 if run.quick else 200]):
+        n = [99999, 100000, 100001, 250000][j % 4]
+        h2 = [dict(op, v=n) if op['op'] == 'natoms' else op for op in h]
+        if j % 2:
+            h2 = [op for op in h2 if op['op'] != 'close']
+        bigdecl.append((3 * 10 ** 6 + j, h2, False))
     if run.quick and len(items) > 4000:
         keep = [it for it in items if it[2]]
         rest = [it for it in items if not it[2]]
         rng.shuffle(rest)
         items = keep + rest[:max(0, 4000 - len(keep))]
+    items += bigdecl
     nrand = 150 if run.quick else 1500
     rand_items = [(10 ** 6 + j, run.seed * 1000003 + j, 40 if run.quick else 300, 'C14' in props) for j in range(nrand)]
     nproc = 16
@@ -679,6 +745,13 @@ def check(run, props):
             jobs.append(('ship', [(5 * 10 ** 6 + j, path, size <= (4000 if run.quick else 60000))],
                          os.path.join(scratch, 'tr_s%d.ndjson' % j), workroot))
         run.extra['shipped_files_truncated'] = [os.path.basename(x) for x in ship]
+        # generated complete files at the size where the five-digit atom numbers wrap (declared count >= 100000)
+        bigs = [(100000, False)] if run.quick else [(99999, False), (100000, True), (100001, False), (123456, False)]
+        for j, (n, vel) in enumerate(bigs):
+            bp = os.path.join(scratch, 'big%d.gro' % n)
+            write_big_file(bp, n, vel)
+            jobs.append(('ship', [(6 * 10 ** 6 + j, bp, 'sparse')], os.path.join(scratch, 'tr_b%d.ndjson' % j), workroot))
+        run.extra['big_files_truncated'] = ['%d atoms%s' % (n, ' with velocities' if v else '') for n, v in bigs]
     with Pool(nproc) as pool:
         parts = pool.map(_work, jobs)
     traces = {}
